@@ -27,7 +27,7 @@ RULE = ('process programs (declared nested inputs with defaults, nested and dyna
 ASSUMPTIONS = ['bundles compared structurally: exceptions by type and args, mappings order-insensitively, the traceback text of an excepted state ignored',
                'a WorkChain waiting on futures / children cannot be saved and is not a save point', 'listeners are not attached (they would be persisted)']
 REQUIRED = ['roundtrips', 'medium/copy', 'medium/pickle', 'medium/yaml', 'loader/default', 'loader/custom', 'points/created', 'points/running', 'points/waiting',
-            'points/finished', 'points/excepted', 'points/killed', 'points/paused', 'kinds/process', 'kinds/outline', 'stepper_states', 'accessors_compared']
+            'points/finished', 'points/excepted', 'points/killed', 'points/paused', 'points/q-killed', 'points/q-excepted', 'points/q-finished', 'points/q-waiting', 'kinds/process', 'kinds/outline', 'stepper_states', 'accessors_compared']
 BOUNDS = {'quick': '10 programs x 4 plans + 40 outlines, all save points, 6 round trips each', 'thorough': '+60 random programs, 400 outlines'}
 
 
@@ -83,7 +83,8 @@ def gen_cases(tier, seed):
     for name, prog in sorted(_programs(tier, seed).items()):
         ns = plans.slots_of(prog)
         plist = [[], [{'at': 1, 'act': ['pause', 'pm']}, {'at': 'q', 'act': ['play']}], [{'at': 0, 'act': ['pause', None]}, {'at': 'q', 'act': ['play']}],
-                 [{'at': max(1, ns // 2), 'act': ['kill', 'kk']}], [{'at': 2, 'act': ['pause', 'p2']}, {'at': 'q', 'act': ['kill', 'kp']}]]
+                 [{'at': max(1, ns // 2), 'act': ['kill', 'kk']}], [{'at': 2, 'act': ['pause', 'p2']}, {'at': 'q', 'act': ['kill', 'kp']}],
+                 [{'at': 1, 'act': ['pause', 'p1']}, {'at': 'q', 'act': ['fail', 'fp']}]]
         for plan in plist:
             n += 1
             yield {'kind': 'process', 'name': name, 'program': prog, 'plan': plan, 'inputs': INPUTS[n % 3], 'pid': PIDS[n % 4]}
@@ -199,6 +200,13 @@ class SaveRun(lifecycle.Run):
         if self.proc.paused and act[0] == 'pause' and not self.proc.has_terminated():
             self.sp.at(self.proc, 'paused')
         return entry
+
+    def _pump(self):
+        ok = super()._pump()
+        if ok:
+            # every quiescent point is a save point too (in particular the one after a termination has completed)
+            self.sp.at(self.proc, 'q-' + self.proc.state.value)
+        return ok
 
     def sample(self, where):
         super().sample(where)
